@@ -519,12 +519,14 @@ class Machine:
         if not m:
             return None
         file = m.group(1)
-        if not file.startswith('src/'):
+        if not file.startswith('src/') and 'lazy_static' in file:
             return None
         txt = self._src_line(file, int(m.group(2)), int(m.group(3)), int(m.group(4)), int(m.group(5)))
         if txt is None:
             return None
         txt = txt.strip()
+        if '$' in txt:
+            return None       # inside a macro definition: fall back to the signature
         if txt.startswith('impl'):
             t = txt[4:].strip()
             if t.startswith('<'):
@@ -661,6 +663,10 @@ class Machine:
                 return None
         if isinstance(v, Adt):
             return v.name
+        if isinstance(v, Int):
+            return v.ty
+        if isinstance(v, (bool, z3.BoolRef)):
+            return 'bool'
         if isinstance(v, VecObj):
             return {'vec': 'Vec', 'string': 'String', 'bytes': 'Bytes'}[v.kind]
         if isinstance(v, Tuple) and not v.fields:
